@@ -95,6 +95,14 @@ Definition heavy_ok (n : nat) (l : list prog) : Prop :=
          dotn n t v = - sqrt kk))).                                                        (* pointing into the surface *)
 Definition C11_heavy_stmt : Prop := Forall (fun '(n, l) => heavy_ok n l) heavy_table.
 
+(** ** angle_between_degrees (deprecated alias): the angle of [angle_between] converted with 180/pi, on every path *)
+Definition degrees_ok (p_rad p_deg : prog) : Prop :=
+  forall k a, exists ang, rrun k a p_rad = Ret ([], [ang]) /\ rrun k a p_deg = Ret ([], [ang * (180 / PI)]).
+Definition C11_degrees_stmt : Prop :=
+  degrees_ok p_vec2_angle_between p_vec2_angle_between_degrees /\ degrees_ok p_vec3_angle_between p_vec3_angle_between_degrees /\
+  degrees_ok p_vec4_angle_between p_vec4_angle_between_degrees /\ degrees_ok p_extent2_angle_between p_extent2_angle_between_degrees /\
+  degrees_ok p_extent3_angle_between p_extent3_angle_between_degrees /\ degrees_ok p_vec8_angle_between p_vec8_angle_between_degrees.
+
 (** ** 2D: side / areas are the 2D cross product (halved, absolute) *)
 Definition cross2 (ax ay bx by_ : R) : R := ax * by_ - ay * bx.
 Definition C11_2d_stmt : Prop :=
